@@ -130,3 +130,20 @@ Proof.
   - vm_compute. discriminate.
   - vm_compute. reflexivity.
 Qed.
+
+(* Known finding F32: with DUPLICATE files for one key the premise [NoDup (map fkey image)] of
+   C08_acked_kept_when_fits is necessary.  A kill during the re-upload of an already stored compressed
+   CAS blob leaves a torn second file; if it is the more recently accessed one it wins the index, the
+   complete file is deleted, and the acknowledged blob is a miss after the restart. *)
+Example C08_acked_lost_by_interrupted_reupload :
+  let h1 := "1111111111111111111111111111111111111111111111111111111111111111" in
+  let image := [ mkFile (mkPath ("cas/" ++ h1) 5000 "11" false) 1 2100 true 5000;    (* acknowledged, complete *)
+                 mkFile (mkPath ("cas/" ++ h1) 5000 "22" false) 1 45 false 5000 ] in  (* torn re-upload, newer *)
+  let c := mkCfg true 1000000 1000000 false in
+  let d := recover 40960 0 image in
+  Forall file_sane image /\ List.length (files d) = 1%nat /\
+  snd (exec c d (RGet CAS h1 5000 0 false BMiss "")) = Some GetMiss /\
+  snd (exec c d (RGet CAS h1 (-1) 0 false BMiss "")) = Some GetMiss.
+Proof.
+  cbv zeta. split; [repeat constructor; simpl; lia|]. vm_compute. repeat split; reflexivity.
+Qed.
